@@ -104,6 +104,23 @@ def run(ctx):
         txt = norm(r[0].value) if len(r) == 1 else ""
         okl = txt in ("len(self.__children_or_empty) == 0", "len(self.children) == 0", "not self.__children_or_empty", "not self.children",
                       "0 == len(self.__children_or_empty)")
+        if not okl and len(r) == 1:
+            # the raw list read through the optional-field idiom: `not (self.__children if hasattr(self, "<field>") else <empty>)`
+            v_ = r[0].value
+            inner = None
+            if isinstance(v_, ast.UnaryOp) and isinstance(v_.op, ast.Not):
+                inner = v_.operand
+            elif isinstance(v_, ast.Compare) and len(v_.ops) == 1 and isinstance(v_.ops[0], ast.Eq) and norm(v_.comparators[0]) == "0" \
+                    and isinstance(v_.left, ast.Call) and norm(v_.left.func) == "len" and len(v_.left.args) == 1:
+                inner = v_.left.args[0]
+            fld = mangle(m, "__children")
+            if isinstance(inner, ast.IfExp) and isinstance(inner.test, ast.Call) and norm(inner.test.func) == "hasattr" \
+                    and len(inner.test.args) == 2 and norm(inner.test.args[0]) == f.selfname and isinstance(inner.test.args[1], ast.Constant) \
+                    and inner.test.args[1].value == fld and isinstance(inner.body, ast.Attribute) and norm(inner.body.value) == f.selfname \
+                    and mangle(m, inner.body.attr) == fld:
+                d_ = inner.orelse
+                okl = (isinstance(d_, ast.Constant) and d_.value is None and isinstance(v_, ast.UnaryOp)) \
+                    or (isinstance(d_, (ast.Tuple, ast.List)) and not d_.elts)
         if okl:
             ctx.inst("N2", f, r[0], "is_leaf ⇔ no children")
         else:
@@ -126,8 +143,8 @@ def run(ctx):
             else:
                 ctx.viol("N2", f, f.node, "%s does not return () exactly when the parent is None" % name, construct="%s.%s root case" % (m, name))
     # ---- N3: dependency footprint — which link direction each member may read
-    PSET = {"parent", "__parent"}
-    CSET = {"children", "__children", "__children_or_empty"}
+    PSET = {"parent", "__parent"} | {mangle(m_, "__parent") for m_ in T.MIXINS}
+    CSET = {"children", "__children", "__children_or_empty"} | {mangle(m_, a_) for m_ in T.MIXINS for a_ in ("__children", "__children_or_empty")}
     from ..nodetype import has_node
     direct = {}
     for f in p.all_funcs:
